@@ -122,7 +122,57 @@ def refusal_check(outs, exc, wanted, describe):
             if bad:
                 return False, "a value is returned on a path that does not pass the %s test" % describe
             return True, T.show(test)
+    sem = _refusal_by_execution(outs, exc, wanted)
+    if sem is not None:
+        return sem
     return False, "no `raise %s` guarded by the %s test" % (exc, describe)
+
+
+def _refusal_by_execution(outs, exc, wanted):
+    """the refusal written another way (chained comparison, abs(), named constants, `not lo <= v <= hi`): the path conditions are executed
+    on every class of the tested quantity against the stated bounds.  Returns (ok, message), or None when that cannot be done."""
+    specs = [getattr(p_, "spec", None) for p_ in wanted]
+    if not specs or any(s_ is None or s_[0] not in ("Lt", "Gt", "LtE", "GtE") for s_ in specs):
+        return None
+    pred = specs[0][1]
+    cands = []
+    for o in outs:
+        for x in T.walk(o.cond):
+            if x[0] == "cmp":
+                for side in (x[2], x[3]):
+                    if side[0] != "num" and pred(side) and side not in cands:
+                        cands.append(side)
+    if len(cands) != 1:
+        return None
+    V = T.sym("NUM_REFUSED_QUANTITY")
+    import operator as _op
+    ops = {"Lt": _op.lt, "Gt": _op.gt, "LtE": _op.le, "GtE": _op.ge}
+
+    def prims(t_, env_):
+        if t_[0] == "call" and t_[1] == "isinstance":
+            return True
+        return None
+    reps = set()
+    for _, _, b in specs:
+        reps |= {b - 1, b - Fraction(1, 1000), b, b + Fraction(1, 1000), b + 1}
+    try:
+        for v in sorted(reps):
+            env = {V: v}
+            refused = returned = False
+            for o in outs:
+                c_ = T.subst(o.cond, {cands[0]: V})
+                if o.kind == "raise" and o.value == ("str", exc) and eval_exact(c_, dict(env, **{"$memo": {}}), prims) is True:
+                    refused = True
+                elif o.kind == "ret" and eval_exact(c_, dict(env, **{"$memo": {}}), prims) is True:
+                    returned = True
+            want = any(ops[op_](v, b_) for op_, _, b_ in specs)
+            if want and (returned or not refused):
+                return False, "the value %s is %s although it lies outside the stated bounds" % (float(v), "accepted" if returned else "not refused with %s" % exc)
+            if not want and refused:
+                return False, "the value %s is refused although it lies inside the stated bounds" % float(v)
+    except (NotEvaluable, TypeError, ValueError, KeyError):
+        return None
+    return True, "refusal decided by executing the path conditions on every class of the tested quantity against the bounds"
 
 
 def cmp_is(op, lhs_pred, value):
@@ -140,6 +190,7 @@ def cmp_is(op, lhs_pred, value):
         if o == mirror.get(op) and lhs_pred(b) and a == ("num", value):
             return True
         return False
+    p.spec = (op, lhs_pred, value)
     return p
 
 
